@@ -4,3 +4,5 @@ import VirtioVerif.Model.Layout
 import VirtioVerif.Props.C06
 import VirtioVerif.Model.PciBus
 import VirtioVerif.Props.C12
+import VirtioVerif.Model.PciCap
+import VirtioVerif.Props.C11
